@@ -87,6 +87,29 @@ static std::vector<Miller> asu_list(const SpaceGroup& sg, const GroupOps& gops, 
 
 static std::string handle(const std::string& cmd, const std::string& args) {
   std::vector<std::string> w = words(args);
+  if (cmd == "alook") {
+    // index arithmetic of ReciprocalGrid::prepare_asu_data (model Fft/AsuLookup.v). args: nu nv nw half  h k l ...
+    // P 1 grid whose slot i holds the value (i, 1): the listed value tells which slot was read and whether it was conjugated
+    FPhiGrid<float> g;
+    g.spacegroup = &get_spacegroup_p1();
+    g.unit_cell.set(20, 30, 40, 90, 90, 90);
+    g.axis_order = AxisOrder::XYZ;
+    g.half_l = to_ll(w.at(3)) != 0;
+    g.set_size_without_checking((int) to_ll(w.at(0)), (int) to_ll(w.at(1)), (int) to_ll(w.at(2)));
+    for (size_t i = 0; i < g.data.size(); ++i) g.data[i] = std::complex<float>((float) i, 1.f);
+    AsuData<std::complex<float>> ad = g.prepare_asu_data(0, 0, true, true);
+    std::map<Miller, std::complex<float>> m;
+    for (const auto& hv_ : ad.v) m[hv_.hkl] = hv_.value;
+    std::string out;
+    for (size_t k = 4; k + 2 < w.size(); k += 3) {
+      Miller h = {{(int) to_ll(w[k]), (int) to_ll(w[k + 1]), (int) to_ll(w[k + 2])}};
+      auto it = m.find(h);
+      out += (out.empty() ? "" : " ");
+      if (it == m.end()) out += "-";
+      else out += std::to_string((long) it->second.real()) + ":" + (it->second.imag() < 0 ? "1" : "0");
+    }
+    return out;
+  }
   if (cmd == "place") {
     // placement bookkeeping: args: row nu nv nw half zyx n  h k l ...  (amplitude = serial, phase = 5 deg)
     const SpaceGroup& sg = spacegroup_tables::main[to_ll(w.at(0))];
